@@ -59,7 +59,7 @@ static unsigned char* isa_l_get_decode_matrix(int k, int m, unsigned char *encod
     uint64_t missing_bm = convert_list_to_bitmap(missing_idxs);
 
     while (i < k && l < n) {
-        if (((1 << l) & missing_bm) == 0) {
+        if (((1ULL << l) & missing_bm) == 0) {
             for (j = 0; j < k; j++) {
                 decode_matrix[(k * i) + j] = encode_matrix[(k * l) + j];
             }
@@ -129,7 +129,7 @@ static unsigned char* get_inverse_rows(int k,
      * Fill in rows for missing data
      */
     for (i = 0; i < k; i++) {
-        if ((1 << i) & missing_bm) {
+        if ((1ULL << i) & missing_bm) {
             for (j = 0; j < k; j++) {
                 inverse_rows[(l * k) + j] = decode_inverse[(i * k) + j];
             }
@@ -153,12 +153,12 @@ static unsigned char* get_inverse_rows(int k,
      */
     for (i = k; i < n; i++) {
         // Parity is missing
-        if ((1 << i) & missing_bm) {
+        if ((1ULL << i) & missing_bm) {
             int d_idx_avail = 0;
             int d_idx_unavail = 0;
             for (j = 0; j < k; j++) {
                 // This data is available, so we can use the encode matrix
-                if (((1 << j) & missing_bm) == 0) {
+                if (((1ULL << j) & missing_bm) == 0) {
                     inverse_rows[(l * k) + d_idx_avail] ^= encode_matrix[(i * k) + j];
                     d_idx_avail++;
                 } else {
@@ -233,7 +233,7 @@ int isa_l_decode(void *desc, char **data, char **parity,
 
     j = 0;
     for (i = 0; i < n; i++) {
-        if (missing_bm & (1 << i)) {
+        if (missing_bm & (1ULL << i)) {
             continue;
         }
         if (j == k) {
@@ -250,13 +250,13 @@ int isa_l_decode(void *desc, char **data, char **parity,
     // Grab pointers to memory needed for missing data fragments
     j = 0;
     for (i = 0; i < k; i++) {
-        if (missing_bm & (1 << i)) {
+        if (missing_bm & (1ULL << i)) {
             decoded_elements[j] = (unsigned char*)data[i];
             j++;
         }
     }
     for (i = k; i < n; i++) {
-        if (missing_bm & (1 << i)) {
+        if (missing_bm & (1ULL << i)) {
             decoded_elements[j] = (unsigned char*)parity[i - k];
             j++;
         }
@@ -340,7 +340,7 @@ int isa_l_reconstruct(void *desc, char **data, char **parity,
 
     j = 0;
     for (i = 0; i < n; i++) {
-        if (missing_bm & (1 << i)) {
+        if (missing_bm & (1ULL << i)) {
             continue;
         }
         if (j == k) {
@@ -359,7 +359,7 @@ int isa_l_reconstruct(void *desc, char **data, char **parity,
      */
     j = 0;
     for (i = 0; i < n; i++) {
-        if (missing_bm & (1 << i)) {
+        if (missing_bm & (1ULL << i)) {
             if (i == destination_idx) {
                 if (i < k) {
                     reconstruct_buf = (unsigned char*)data[i];
@@ -404,7 +404,7 @@ int isa_l_min_fragments(void *desc, int *missing_idxs,
     int ret = -1;
 
     for (i = 0; i < (isa_l_desc->k + isa_l_desc->m); i++) {
-        if (!(missing_bm & (1 << i))) {
+        if (!(missing_bm & (1ULL << i))) {
             fragments_needed[j] = i;
             j++;
         }
